@@ -7,6 +7,7 @@ import (
 	"github.com/cosmos/cosmos-sdk/client"
 	codectypes "github.com/cosmos/cosmos-sdk/codec/types"
 	sdk "github.com/cosmos/cosmos-sdk/types"
+	txtypes "github.com/cosmos/cosmos-sdk/types/tx"
 	"github.com/cosmos/cosmos-sdk/types/tx/signing"
 	authsigning "github.com/cosmos/cosmos-sdk/x/auth/signing"
 )
@@ -86,4 +87,56 @@ func (c *Chain) BuildTx(signer string, msgs []sdk.Msg, fee sdk.Coins, gas uint64
 		return nil, err
 	}
 	return txCfg.TxEncoder()(b.GetTx())
+}
+
+// BuildSimTx builds the bytes a client hands to the node's Simulate service: the messages, one signer info per
+// signer with the account's current sequence, NO public key and an empty signature. In simulate mode the ante
+// chain accepts that (no key is set, no signature is verified), also for signers that are module accounts such as
+// the x/gov authority - so anybody with RPC access can have any message executed on a throw-away state.
+func (c *Chain) BuildSimTx(msgs []sdk.Msg) (txBytes []byte, err error) {
+	defer func() {
+		if r := recover(); r != nil {
+			err = fmt.Errorf("BuildSimTx panic: %v", r)
+		}
+	}()
+	cdc := Enc().Marshaler
+	body := &txtypes.TxBody{}
+	seen := map[string]bool{}
+	auth := &txtypes.AuthInfo{Fee: &txtypes.Fee{GasLimit: 5_000_000}}
+	var sigs [][]byte
+	for _, m := range msgs {
+		any, err := codectypes.NewAnyWithValue(m)
+		if err != nil {
+			return nil, err
+		}
+		body.Messages = append(body.Messages, any)
+		for _, a := range m.GetSigners() {
+			if seen[string(a)] {
+				continue
+			}
+			seen[string(a)] = true
+			_, seq, _ := c.AccountNumSeq(a)
+			auth.SignerInfos = append(auth.SignerInfos, &txtypes.SignerInfo{
+				ModeInfo: &txtypes.ModeInfo{Sum: &txtypes.ModeInfo_Single_{Single: &txtypes.ModeInfo_Single{Mode: signing.SignMode_SIGN_MODE_DIRECT}}},
+				Sequence: seq,
+			})
+			sigs = append(sigs, []byte{})
+		}
+	}
+	bb, err := cdc.Marshal(body)
+	if err != nil {
+		return nil, err
+	}
+	ab, err := cdc.Marshal(auth)
+	if err != nil {
+		return nil, err
+	}
+	return cdc.Marshal(&txtypes.TxRaw{BodyBytes: bb, AuthInfoBytes: ab, Signatures: sigs})
+}
+
+// SimulateTx runs the transaction the way the node's Simulate RPC does (all ante handlers in simulate mode and
+// every message handler, on a branch of the check state that is thrown away).
+func (c *Chain) SimulateTx(bz []byte) (res *sdk.Result, err error, pi *PanicInfo) {
+	pi = catch("Simulate", func() { _, res, err = c.App.Simulate(bz) })
+	return
 }
